@@ -24,7 +24,7 @@ RULE = (
     "= decoder transform data; header values, picture numbers and data-unit codes are compared"
 )
 BOUNDS = {
-    "quick": "10 fixtures (HQ lossy/lossless, LD, fragments, asymmetric, slice_size_scaler 2, transform parameters changing between pictures); per picture/fragment unit 8 seeded single symbolic bytes (transform parameters, slice qindex/length fields, payload) and one seeded 2-byte window on 3 fixtures",
+    "quick": "12 fixtures (HQ lossy/lossless, LD, fragments, asymmetric, slice_size_scaler 2, transform parameters changing between pictures); per picture/fragment unit 8 seeded single symbolic bytes (transform parameters, slice qindex/length fields, payload) and one seeded 2-byte window on 3 fixtures",
     "thorough": "13 fixtures; every single byte of each picture/fragment unit, 2 seeded 2-byte windows per unit on 7 fixtures",
 }
 OUTSIDE = "more than 3 symbolic payload bytes per exploration (entropy-coded data forks per exp-Golomb bit); rejected streams"
@@ -35,7 +35,7 @@ ENGINE_OPTS = {"max_decisions": 20000}
 REPLAYS_PER_LABEL = 2
 IFCONV = ["write_bit"]
 
-FIX_Q = ["hq_min", "hq_lossless", "ld_min", "hq_frag", "ld_frag", "hq_asym", "hq_tiny_lossless", "hq_scaler2", "hq_asym_then_sym", "hq_params_change"]
+FIX_Q = ["hq_min", "hq_lossless", "ld_min", "hq_frag", "ld_frag", "hq_asym", "hq_tiny_lossless", "hq_scaler2", "hq_asym_then_sym", "hq_params_change", "hq_signal_preset7", "hq_signal_preset8"]
 PAIR_FIXTURES = ["hq_min", "ld_min", "hq_tiny_lossless"]
 PAIR_FIXTURES_T = ["hq_min", "ld_min", "hq_tiny_lossless", "hq_frag", "ld_frag", "hq_lossless", "hq_asym"]
 FIX_T = FIX_Q + ["hq_fields", "hq_420", "hq_tiny"]
@@ -89,6 +89,8 @@ def _capture_install():
                                                   "slice_prefix_bytes", "slice_size_scaler", "slice_bytes_numerator", "slice_bytes_denominator",
                                                   "luma_width", "luma_height", "color_diff_width", "color_diff_height", "major_version", "profile", "level")},
             "quant_matrix": copy.deepcopy(state["quant_matrix"]),
+            "derived": {k: state.get(k) for k in ("luma_width", "luma_height", "color_diff_width", "color_diff_height", "luma_depth", "color_diff_depth", "picture_coding_mode")},
+            "video_parameters": dict(state["video_parameters"]),
         })
         return orig(state)
 
@@ -195,7 +197,7 @@ def _slices_of_picture(units_iter):
             pp = du["picture_parse"]
             td = pp["wavelet_transform"]["transform_data"]
             yield {"picture_number": pp["picture_header"]["picture_number"], "tp": pp["wavelet_transform"]["transform_parameters"],
-                   "slices": list(td.get("hq_slices", td.get("ld_slices", []))), "ld": "ld_slices" in td, "code": code}
+                   "slices": list(td.get("hq_slices", td.get("ld_slices", []))), "ld": "ld_slices" in td, "code": code, "state": td.get("_state")}
         elif "fragment_parse" in du:
             fp = du["fragment_parse"]
             fh = fp["fragment_header"]
@@ -204,6 +206,7 @@ def _slices_of_picture(units_iter):
             else:
                 fd = fp["fragment_data"]
                 cur["ld"] = "ld_slices" in fd
+                cur["state"] = fd.get("_state")
                 cur["slices"].extend(fd.get("hq_slices", fd.get("ld_slices", [])))
                 tp = cur["tp"]["slice_parameters"]
                 if len(cur["slices"]) == tp["slices_x"] * tp["slices_y"]:
@@ -219,6 +222,15 @@ def _compare(cells_file_factory, caps, desc, prove, prove_eq):
         pics += list(_slices_of_picture(seq["data_units"]))
     prove(len(pics) == len(caps), "picture-count", [len(pics), len(caps)])
     for cap, p in zip(caps, pics):
+        # the deserialiser's own copy of the derived state (what the viewer and the test-case tooling consume)
+        dst = p.get("state")
+        if dst is not None:
+            for k, v in cap["derived"].items():
+                prove_eq(dst.get(k), v, "derived-state:" + k)
+            dvp = dst.get("video_parameters")
+            if dvp is not None:
+                for k, v in cap["video_parameters"].items():
+                    prove_eq(dvp.get(k), v, "video-parameter:" + k)
         prove_eq(p["picture_number"], cap["picture_number"], "picture-number")
         tp = p["tp"]
         sp = tp["slice_parameters"]
